@@ -1,4 +1,5 @@
 import Logrange.Proofs.MixerPosLeaf
+import Logrange.Proofs.MixerPosSLeaf
 import Logrange.Proofs.MixTree
 /-!
 # C04 — which position the merged cursor reports while it shows which event
@@ -60,5 +61,37 @@ example :
     (It.init (.leaf (⟨1, [⟨5, 0⟩, ⟨7, 1⟩], 1, false⟩ : Leaf)) (.leaf ⟨2, [⟨5, 0⟩], 0, false⟩)).headPos = some (2, 0) ∧
     (It.init (.leaf (⟨1, [⟨5, 0⟩, ⟨7, 1⟩], 0, false⟩ : Leaf)) (.leaf ⟨2, [⟨5, 0⟩], 0, false⟩)).get.1.curPosS = some (1, 0) := by
   decide +kernel
+
+/-! ## the variant with a `sync` predicate (`LawfulSourcePosS`) and the direction-switch law -/
+
+section S
+variable {τ : Type} [Source τ] [LawfulSource τ] [SourcePos τ] [LawfulSourcePosS τ]
+
+/-- **the same with the position law restricted to `sync` states** (for leaves whose reported position lags behind the event shown
+in some states — the journal iterators walking backward over a chunk boundary, finding F48): while every source is in a `sync`
+state, after a `Get` the merged cursor reports the position of the event it shows; `Get`, `Next` (after a `Get`), `Release` keep the
+sources in `sync` states and the invariant; nothing is claimed across `SetBackward` beyond the invariant `WFPS` (which needs no
+`sync`) — the leaf law `head_setBackward` says what a switch does to a source that stands on its head. -/
+theorem merged_cursor_reports_position_in_sync_states (t : It τ) (h : t.WF) (hy : t.Synced) (hp : t.WFPS) (bk : Bool) :
+    (∀ p, t.headPosS = some p → t.get.1.curPosS = some p) ∧ t.get.1.headPosS = t.headPosS ∧
+    t.get.1.WFPS ∧ t.get.1.Synced ∧ t.get.1.next.WFPS ∧ t.get.1.next.Synced ∧
+    t.release.WFPS ∧ t.release.Synced ∧ (t.setBackward bk).WFPS := by
+  obtain ⟨g1, g2⟩ := It.get_placedS t h hy hp
+  have e := It.headPosS_get t h
+  have gy := It.get_Synced t h hy
+  obtain ⟨_, _, gw, _, gs⟩ := It.get_spec t h
+  exact ⟨fun p hp' => g2 p (by rw [e]; exact hp'), e, g1, gy, It.next_WFPS _ gw gy g1, It.next_Synced _ gw gs gy,
+    It.release_WFPS t h hp, It.release_Synced t h hy, It.setBackward_WFPS bk t h hp⟩
+
+/-- the in-memory iterator meets the variant too, with the switch law: switched while it stands on its head event, it shows the
+same event at the same position in the other direction -/
+theorem leaf_direction_switch_keeps_head (bk : Bool) (l : Leaf) (h : LawfulSource.wf l) (p : Int × Int)
+    (hp : (LawfulSourcePosS.pview l).head? = some p) (hpos : SourcePos.pos l = p) :
+    (LawfulSourcePosS.pview (Source.setBackward bk l)).head? = some p ∧
+    (LawfulSource.view (Source.setBackward bk l)).head? = (LawfulSource.view l).head? ∧
+    SourcePos.pos (Source.setBackward bk l) = p :=
+  LawfulSourcePosS.head_setBackward bk l h trivial p hp hpos
+
+end S
 
 end Logrange.Props.C04Pos
